@@ -22,10 +22,10 @@ var reAppendName = regexp.MustCompile(`append:[A-Za-z0-9_>$.*()]+:t\d+`)
 // exploreOperator explores fn (evaluateBinary / evaluateUnary) for one operator token type; the handle*
 // helpers are inlined, the coercions and isEqual stay events.
 func exploreOperator(p *Prog, fn *ssa.Function, params []AV, opParam string, tok int64) (*InterpModel, [][]*Event, bool) {
-	m := NewInterpModel(p, fn.Name())
+	m := NewInterpModel(p, fnName(fn))
 	m.EmitTests = true
 	keep := map[string]bool{"toNumber": true, "toInt64": true, "stringifyOperand": true, "isEqual": true, "isTruthy": true, "stringify": true}
-	m.KeepAsEvent = func(c *ssa.Function) bool { return keep[c.Name()] }
+	m.KeepAsEvent = func(c *ssa.Function) bool { return keep[fnName(c)] }
 	m.Explore(fn, params, func(st *State) {
 		st.Facts["v:"+opParam+".Type"] = IntV(tok)
 	})
@@ -331,7 +331,7 @@ func checkCoercionsRule(p *Prog, l *Ledger, rule string) {
 		{"interpreter.toInt64", "map[string]interface{}", map[string]string{"reject": `return\(0, Errorf\(.*\)\)`}},
 	} {
 		fn := p.Func(spec.fn)
-		key := fn.Name() + "(" + spec.typ + ")"
+		key := fnName(fn) + "(" + spec.typ + ")"
 		if fn == nil {
 			l.Undecide(rule, key, "", "not found")
 			continue
@@ -418,7 +418,6 @@ func checkIsEqual(p *Prog, l *Ledger) {
 		}
 	}
 }
-
 
 // wordStringQuiet renders a word without dispatch type tests, map probes and flag tests.
 func wordStringQuiet(w []*Event) string {
